@@ -565,6 +565,11 @@ func (c *Ctx) packVariadic(sig *types.Signature, args []*Val) []*Val {
 	if !ok || len(args) < np-1 {
 		return args
 	}
+	if len(args) == np-1 {
+		// no variadic arguments: Go passes a nil slice
+		out := append([]*Val{}, args...)
+		return append(out, scalar(&Term{"nilsl", SSl}, last))
+	}
 	var elems []*Term
 	for _, a := range args[np-1:] {
 		if a.T != nil && es == SV && a.T.Sort != SV && a.Typ != nil {
